@@ -135,3 +135,26 @@ Theorem C17_utf16_helper_never_out_of_fuel :
   forall big input t only_test is_chunk, utf16_helper big input t only_test is_chunk <> HFuel.
 Proof. exact utf16_helper_total. Qed.
 Print Assumptions C17_utf16_helper_never_out_of_fuel.
+
+From Proofs Require Import Utf8Sound ScalarFacts.
+
+(* the converse of C17_every_scalar_value_encodes_to_a_character: the crate's automaton accepts ONLY encodings of
+   scalar values -- no overlong form, no surrogate, nothing above U+10FFFF *)
+Theorem C17_automaton_accepts_only_scalar_encodings :
+  forall c, is_char c -> exists s, is_scalar s = true /\ c = utf8_encode_char s.
+Proof. exact is_char_is_encoded_scalar. Qed.
+Print Assumptions C17_automaton_accepts_only_scalar_encodings.
+
+(* strict UTF-8 decoding through the helper is the exact inverse of encoding: what decodes to t IS the UTF-8 form of t *)
+Theorem C17_utf8_decoding_is_the_exact_inverse_of_encoding :
+  forall b t, Forall (fun x => x < 256) b -> utf8_strict_text b = Some t ->
+    Forall (fun c => is_scalar c = true) t /\ b = utf8_encode t.
+Proof. exact utf8_strict_text_inv. Qed.
+Print Assumptions C17_utf8_decoding_is_the_exact_inverse_of_encoding.
+
+(* every modelled codec emits Unicode scalar values only (what a String can hold) *)
+Theorem C17_modelled_codecs_emit_scalar_values :
+  forall e k b t, modelled_codec e = Some k -> Forall (fun x => x < 256) b -> codec_strict k b = Some t ->
+    Forall (fun c => is_scalar c = true) t.
+Proof. exact modelled_codecs_emit_scalars. Qed.
+Print Assumptions C17_modelled_codecs_emit_scalar_values.
